@@ -330,13 +330,20 @@ func monC16(c *drv.Ctx) {
 			}
 			ue := v.Encode(nil)
 			ue = ue[:len(ue)-1]
-			var tree []uf.UnknownField
+			var tree, tree2 []uf.UnknownField
 			var ufIn []byte
+			holder := &struct {
+				A              int
+				_unknownFields []byte
+			}{A: 1}
 			if len(ue) > 0 {
 				ufIn = append([]byte(nil), ue...)
 				tree, _ = uf.ConvertUnknownFields(ufIn)
+				// ... and the tree fetched from a struct that carries the bytes (the struct is decoded into again later)
+				holder._unknownFields = append([]byte(nil), ue...)
+				tree2, _ = uf.GetUnknownFields(holder)
 			}
-			before := fmt.Sprintf("%v|%v|%d|%v", got, ex.Msg(), ex.TypeID(), tree)
+			before := fmt.Sprintf("%v|%v|%d|%v|%v", got, ex.Msg(), ex.TypeID(), tree, tree2)
 			for k := range in {
 				in[k] = 0xFF
 			}
@@ -346,7 +353,10 @@ func monC16(c *drv.Ctx) {
 			for k := range ufIn {
 				ufIn[k] = 0xFF
 			}
-			after := fmt.Sprintf("%v|%v|%d|%v", got, ex.Msg(), ex.TypeID(), tree)
+			for k := range holder._unknownFields {
+				holder._unknownFields[k] = 0xFF
+			}
+			after := fmt.Sprintf("%v|%v|%d|%v|%v", got, ex.Msg(), ex.TypeID(), tree, tree2)
 			if before != after {
 				cs.Fail("decoded-value-changed", M{"what": "decoded struct / exception / unknown-field tree", "span_cache": span}, M{"message": "a decoded struct changed after its input buffer was overwritten"})
 				return
